@@ -64,6 +64,9 @@ LABEL_VALUES = ['', 'x', 'y', 'é', 'a"b\\c', 'x y']
 LABEL_NAMES = [['l'], ['k'], ['l', 'k'], ['k', 'l'], ['a_b']]
 # names that sort AFTER 'le': in a histogram bucket key (labels sorted by name) `le` is then NOT the last label
 LATE_LABEL_NAMES = [['method'], ['path', 'zone'], ['l', 'zone'], ['lf'], ['zone'], ['méthode'], ['ü', 'k']]
+# a USER label literally named `le` (counters, summaries, gauges; reserved on histograms): numeric-looking and other values
+LE_LABEL_NAMES = [['le'], ['le', 'k'], ['a', 'le'], ['le', 'zone']]
+LE_LABEL_VALUES = ['1', '0.5', '+Inf', '1e3', 'x', '', 'é', '1.0', 'inf']
 # non-canonical (and canonical) spellings a foreign store file may carry for a bound
 SPELLINGS = {
     1.5e10: ['1.5e+010', '15000000000.0', '1.5e10', '1.5e+10'],
@@ -610,6 +613,8 @@ def run_scenario(scen, want_model=True, want_sample=False):
     for md in scen['pool']:
         if md['kind'] == 'histogram' and md['labels']:
             res.count('histogram-labelled:' + ('le-not-last' if le_not_last(md) else 'le-last'))
+        elif md['labels']:
+            res.count('non-histogram-labelled:' + ('user-label-named-le' if 'le' in md['labels'] else 'other'))
     with mpsim.Sim() as sim:
         w = World(sim, scen['pool'], res, want_sample)
         for i, st in enumerate(scen['steps']):
@@ -760,7 +765,30 @@ def foreign_corpus():
     S.append([['obs', 1, 1, ['a'], B(1.0)], ['obs', 2, 1, ['a'], B(2.0)], ['obs', 2, 1, ['b'], B(1000000.0)], ['child', 3, 1, ['a']],
               ['obs', 1, 4, ['x', 'a'], B(1.0)], ['obs', 2, 4, ['x', 'a'], B(2.5)], ['obs', 3, 4, ['', 'b'], B(8.0)],
               ['dead', 2], ['obs', 1, 1, ['a'], B(0.5)], F(5, 4, ['x', 'a'], [('1', 1.0), ('inf', 1.0)], 2.0)])
-    return [{'pool': pool, 'steps': s} for s in S]
+    return [{'pool': pool, 'steps': s} for s in S] + le_label_corpus()
+
+
+def le_label_corpus():
+    """a USER label named `le` on counters, summaries and gauges (it means nothing special there)"""
+    out = []
+    out.append({'pool': [mdef('counter', 'c', ['le'])], 'steps': [
+        ['inc', 1, 0, ['1'], B(1.0)], ['inc', 2, 0, ['1'], B(2.0)], ['inc', 1, 0, ['0.5'], B(4.0)], ['inc', 2, 0, ['x'], B(8.0)],
+        ['dead', 1], ['inc', 3, 0, ['1'], B(0.5)]]})
+    out.append({'pool': [mdef('summary', 's', ['le']), mdef('summary', 't', ['a', 'le'])], 'steps': [
+        ['obs', 1, 0, ['x'], B(1.0)], ['obs', 2, 0, ['x'], B(2.0)], ['obs', 1, 0, [''], B(4.0)], ['obs', 2, 1, ['u', '1e3'], B(0.5)],
+        ['obs', 3, 1, ['u', '1e3'], B(0.25)], ['obs', 3, 1, ['u', 'é'], B(1.0)]]})
+    out.append({'pool': [mdef('gauge', 'ga', ['le'], 'all'), mdef('gauge', 'gs', ['le', 'k'], 'livesum'), mdef('gauge', 'gm', ['le'], 'min')],
+                'steps': [['set', 1, 0, ['1'], B(3.0), B(10.0)], ['set', 2, 0, ['1'], B(4.0), B(10.0)], ['set', 1, 1, ['+Inf', 'x'], B(1.0), B(11.0)],
+                          ['inc', 2, 1, ['+Inf', 'x'], B(2.0), B(11.0)], ['set', 1, 2, ['x'], B(-1.0), B(12.0)], ['set', 2, 2, ['x'], B(-2.0), B(12.0)],
+                          ['dead', 2], ['set', 3, 1, ['0.5', 'y'], B(8.0), B(13.0)]]})
+    out.append({'pool': [mdef('counter', 'c', ['le']), mdef('histogram', 'h', (), '', 'small'), mdef('histogram', 'hz', ['zone'], '', 'dec')],
+                'steps': [['inc', 1, 0, ['+Inf'], B(1.0)], ['obs', 1, 1, [], B(1.0)], ['inc', 2, 0, ['+Inf'], B(2.0)], ['obs', 2, 1, [], B(3.0)],
+                          ['inc', 2, 0, ['1.0'], B(4.0)], ['obs', 1, 2, ['a'], B(0.5)], ['inc', 1, 0, ['inf'], B(8.0)],
+                          F(5, 1, [], [('1', 1.0), ('inf', 0.0)], 1.0), ['inc', 3, 0, ['+Inf'], B(0.5)]]})
+    out.append({'pool': [mdef('counter', 'cz', ['le', 'zone']), mdef('summary', 's', ['le', 'k'])], 'steps': [
+        ['inc', 1, 0, ['1', 'a'], B(1.0)], ['inc', 2, 0, ['1', 'a'], B(2.0)], ['inc', 2, 0, ['2', 'a'], B(4.0)],
+        ['obs', 1, 1, ['0.5', ''], B(2.5)], ['obs', 2, 1, ['0.5', ''], B(-0.5)], ['reuse', 1], ['inc', 1, 0, ['1', 'a'], B(8.0)]]})
+    return out
 
 
 def gen_foreign_step(rng, pool, cands, mi):
@@ -786,6 +814,8 @@ def gen_metric(rng, i, all_modes):
     labels = rng.choice(LABEL_NAMES) if rng.random() < 0.55 else []
     if labels and rng.random() < (0.45 if 0.30 <= r < 0.47 else 0.2):
         labels = rng.choice(LATE_LABEL_NAMES)
+    if labels and not 0.30 <= r < 0.47 and rng.random() < 0.16:
+        labels = rng.choice(LE_LABEL_NAMES)         # not on histograms: `le` is reserved there
     suffix = rng.choice(['', '_a', '_b_c'])
     if r < 0.17:
         return mdef('counter', 'c%d%s' % (i, suffix), labels)
@@ -794,6 +824,11 @@ def gen_metric(rng, i, all_modes):
     if r < 0.47:
         return mdef('histogram', 'h%d%s' % (i, suffix), labels, '', rng.choice(sorted(LAYOUTS)))
     return mdef('gauge', 'g%d%s' % (i, suffix), labels, rng.choice(all_modes))
+
+
+def gen_lvs(rng, md):
+    """label values for one child; a label NAMED `le` mostly gets numeric-looking text"""
+    return [rng.choice(LE_LABEL_VALUES if n == 'le' and rng.random() < 0.85 else LABEL_VALUES) for n in md['labels']]
 
 
 def gen_value(rng, md, op):
@@ -823,8 +858,7 @@ def gen_scenario(rng, all_modes, long=False):
     pool = [gen_metric(rng, i, all_modes) for i in range(rng.randint(1, 5))]
     cands = []
     for md in pool:
-        k = len(md['labels'])
-        cands.append([[rng.choice(LABEL_VALUES) for _ in range(k)] for _ in range(rng.randint(1, 3))] if k else [[]])
+        cands.append([gen_lvs(rng, md) for _ in range(rng.randint(1, 3))] if md['labels'] else [[]])
     steps = []
     t = float(rng.randint(1, 5))
     for _ in range(rng.randint(25, 60) if long else rng.randint(6, 26)):
